@@ -27,6 +27,9 @@
 (*             starts and ANOTHER PARTY creates it before the command      *)
 (*             opens it (environment action OtherCreates) - "already       *)
 (*             exists" must be decided by the open itself                  *)
+(*   seed_out  TRUE: the existing output is also named as a --seed (same   *)
+(*             spelling).  That is not a request for an in-place update:   *)
+(*             without --force-create / --seed-output it is refused        *)
 (*   stale_tmp "none" | "longer" | "shorter": a file already sits at the   *)
 (*             path of compress's temporary chunk file (left by an         *)
 (*             interrupted run), longer / shorter than the data to come    *)
